@@ -1052,3 +1052,121 @@ MUTANTS += [
     dict(name="smooth never builds the submesh", units=["Mesh.smooth"], edits=[(M_, "create_submesh=(create_submesh and (i == (iterations - 1))),", "create_submesh=False,")]),
     dict(name="smooth always starts from the original sites", units=["Mesh.smooth"], edits=[(M_, "        for i in range(iterations):\n            sites = mesh.sites\n", "        for i in range(iterations):\n            sites = self.sites\n")]),
 ]
+
+
+# ------------------------------------------------------------------------------------------------------------------ Device.make_mesh (wiring) and the device's mesh quantities
+
+DV_ = "tdgl.device.device"
+
+
+def run_make_mesh(mutate=None, prefixes=("C07.", "C08.")):
+    """Device.make_mesh / _create_dimensionless_mesh and the mesh quantities of the device in length units:
+    the mesher gets the film outline, the outline of EVERY hole (whatever its `mesh` flag), the film outline again as boundary, the requested
+    max_edge_length (one coherence length when none is given) and the caller's mesher options; smoothing is applied to that triangulation the requested
+    number of times; the device's mesh is built from the resulting points DIVIDED BY the coherence length (same triangles, full submesh); and
+    Device.points / edge_lengths / areas give those quantities back multiplied by xi, xi, xi^2 (C08: the mesh is dimensionless, the device's views
+    of it are in length units) - symbolic number of sites, symbolic xi."""
+    _patch()
+    calls = {}
+    mut = [(o, n) for (m, o, n) in (mutate or []) if m == DV_]
+    NPM = _np_model(calls)
+    rb = {"np": NPM}
+    rb.update(BUILTINS)
+    L = instrument.load(DV_, rebind=rb, mutate=mut, vc=vcm.VC())
+
+    def body():
+        c = sym.ctx()
+        c.record_prefixes = tuple(prefixes)
+        R = z3.Real
+        N, T = SI(z3.Int("N")), SI(z3.Int("T"))
+        assume(N >= 3, T >= 1)
+        xi = SR(R("xi"))
+        assume(xi > 0)
+        Device = L["Device"]
+        film_pts = SymArray.input("film_points", (SI(z3.Int("n_film")), 2))
+        hole_pts = [SymArray.input(f"hole{q}_points", (SI(z3.Int(f"n_hole{q}")), 2)) for q in range(2)]
+        smooth = 0 if bool(SB(z3.Bool("no_smoothing"))) else 3
+        default_len = bool(SB(z3.Bool("default_max_edge_length")))
+        mel = None if default_len else SR(R("max_edge_length"))
+        mp = SI(z3.Int("min_points"))
+        gen = {}
+        pts_out = SymArray.input("mesher_points", (N, 2))
+        tri_out = SymArray.input("mesher_triangles", (T, 3), "i")
+
+        def generate_mesh(poly, **kw):
+            gen.update(poly=poly, kw=kw)
+            return pts_out, tri_out
+        L.ns["generate_mesh"] = generate_mesh
+        log = []
+        smoothed = SymArray.input("smoothed_sites", (N, 2))
+
+        class MeshStub:
+            def __init__(self, sites, elements, sub, made_by):
+                self.sites, self.elements, self.sub, self.made_by = sites, elements, sub, made_by
+                self.edge_mesh = type("EM", (), {"edge_lengths": SymArray.input("dimensionless_edge_lengths", (SI(z3.Int("E")),))})()
+                self.areas = SymArray.input("dimensionless_areas", (N,))
+
+            @staticmethod
+            def from_triangulation(sites, elements, create_submesh=True):
+                m = MeshStub(sites, elements, create_submesh, "from_triangulation")
+                log.append(("from_triangulation", m))
+                return m
+
+            def smooth(self, iterations, create_submesh=True):
+                m = MeshStub(smoothed, self.elements, create_submesh, "smooth")
+                log.append(("smooth", self, iterations, create_submesh, m))
+                return m
+        L.ns["Mesh"] = MeshStub
+        d = Device.__new__(Device)
+        d.name, d._length_units, d.mesh = "d", "LEN", None
+        d.layer = type("Layer", (), {"coherence_length": xi})()
+        Device.coherence_length = property(lambda self_: type("Qx", (), {"magnitude": xi})())
+        d.film = type("Poly", (), {"points": film_pts, "mesh": True})()
+        d.holes = [type("Poly", (), {"points": hole_pts[0], "mesh": True})(), type("Poly", (), {"points": hole_pts[1], "mesh": False})()]
+        d.terminals = ()
+        d.make_mesh(max_edge_length=mel, min_points=mp, smooth=smooth, min_angle=25)
+        kw = gen.get("kw", {})
+        hc = kw.get("hole_coords")
+        check("C07.make_mesh.mesher_gets_the_film_outline_and_every_hole_outline",
+              z3.BoolVal(gen.get("poly") is film_pts and isinstance(hc, list) and len(hc) == 2 and hc[0] is hole_pts[0] and hc[1] is hole_pts[1] and kw.get("boundary") is film_pts))
+        check("C07.make_mesh.mesher_options_are_the_callers", z3.BoolVal(kw.get("min_points") is mp and kw.get("min_angle") == 25
+                                                                          and set(kw) == {"hole_coords", "min_points", "max_edge_length", "boundary", "min_angle"}), note=str(sorted(kw)))
+        got_mel = kw.get("max_edge_length")
+        check("C07.make_mesh.default_resolution_is_one_coherence_length", z3.BoolVal(got_mel is not None) if got_mel is None else sym.eq(SR.lift(got_mel), xi if default_len else mel))
+        final = d.mesh
+        okf = isinstance(final, MeshStub) and final.made_by == "from_triangulation" and isinstance(final.sites, SymArray)
+        check("C07.make_mesh.device_mesh_built_from_a_triangulation_with_full_submesh", z3.BoolVal(bool(okf) and final.sub is True and final.elements is tri_out))
+        if not okf:
+            return
+        i, k = SI(FreshInt("i")), SI(FreshInt("k"))
+        assume(i >= 0, i < N, k >= 0, k < 2)
+        src = smoothed if smooth else pts_out
+        check("C08.make_mesh.mesh_sites_are_the_points_divided_by_the_coherence_length", z3.And(sym.eq(final.sites.shape[0], N), sym.eq(SR.lift(final.sites.at(i, k)) * xi, src.at(i, k))))
+        if smooth:
+            sm_ = [e for e in log if e[0] == "smooth"]
+            oks = len(sm_) == 1 and sm_[0][1].sites is pts_out and sm_[0][1].elements is tri_out and sm_[0][2] == smooth
+            check("C07.make_mesh.requested_smoothing_applied_to_the_meshers_triangulation", z3.BoolVal(bool(oks)))
+        else:
+            check("C07.make_mesh.no_smoothing_when_not_requested", z3.BoolVal(not any(e[0] == "smooth" for e in log)))
+        # the device's views of its mesh, in length units
+        e_ = SI(FreshInt("e"))
+        assume(e_ >= 0, e_ < final.edge_mesh.edge_lengths.shape[0])
+        P = d.points
+        check("C08.device_mesh_quantities.points_are_sites_times_xi", z3.BoolVal(isinstance(P, SymArray)) if not isinstance(P, SymArray) else sym.eq(P.at(i, k), SR.lift(final.sites.at(i, k)) * xi))
+        EL = d.edge_lengths
+        check("C08.device_mesh_quantities.edge_lengths_times_xi", z3.BoolVal(isinstance(EL, SymArray)) if not isinstance(EL, SymArray)
+              else sym.eq(EL.at(e_), SR.lift(final.edge_mesh.edge_lengths.at(e_)) * xi))
+        AR = d.areas
+        check("C08.device_mesh_quantities.areas_times_xi_squared", z3.BoolVal(isinstance(AR, SymArray)) if not isinstance(AR, SymArray) else sym.eq(AR.at(i), SR.lift(final.areas.at(i)) * xi * xi))
+        check("C07.device_mesh_quantities.triangles_are_the_mesh_elements", z3.BoolVal(d.triangles is tri_out))
+    obls, n = explore(body)
+    return dict(obls=obls, paths=n, sources=[L.info()], consistent=sym.consistent())
+
+
+MUTANTS += [
+    dict(name="make_mesh drops holes flagged mesh=False", units=["Device.make_mesh"], edits=[(DV_, "hole_coords=[hole.points for hole in self.holes],", "hole_coords=[hole.points for hole in self.holes if hole.mesh],")]),
+    dict(name="make_mesh: dimensionless mesh multiplied by xi", units=["Device.make_mesh"], edits=[(DV_, "            points / self.coherence_length.magnitude,\n            triangles,", "            points * self.coherence_length.magnitude,\n            triangles,")]),
+    dict(name="make_mesh: smoothing result dropped", units=["Device.make_mesh"], edits=[(DV_, "            points = mesh.sites\n            triangles = mesh.elements\n", "            triangles = mesh.elements\n")]),
+    dict(name="make_mesh: default resolution of one length unit", units=["Device.make_mesh"], edits=[(DV_, "            max_edge_length = 1.0 * self.coherence_length.magnitude", "            max_edge_length = 1.0")]),
+    dict(name="device areas scaled by xi", units=["Device.make_mesh"], edits=[(DV_, "        return self.mesh.areas * self.coherence_length.magnitude**2", "        return self.mesh.areas * self.coherence_length.magnitude")]),
+]
